@@ -268,12 +268,25 @@ fn with_setting(k: &str, v: &str, via_env: bool) -> Probe {
     Probe { via_env, settings: s, make_dir }
 }
 
+/// the probe plus per-client statistics switched on with a usable directory (a second, valid, option must not
+/// change whether the first is refused)
+fn with_stats_on(mut p: Probe) -> Probe {
+    let last = p.settings.pop().unwrap();
+    p.settings.retain(|x| x.0 != "client_stats" && x.0 != "persistence_directory");
+    p.settings.push(("client_stats".into(), "on".into()));
+    p.settings.push(("persistence_directory".into(), "@DIR@".into()));
+    p.settings.push(last);
+    p.make_dir = true;
+    p
+}
+
 fn c16_grid() -> Vec<Probe> {
     let mut out = vec![];
     for via_env in [false, true] {
         for key in ["port", "batch_size", "fault_percentage", "num_workers", "health_check_port", "status_interval"] {
             for v in int_grid(key) {
                 out.push(with_setting(key, &v.to_string(), via_env));
+                out.push(with_stats_on(with_setting(key, &v.to_string(), via_env)));
             }
         }
         for v in ["on", "ON", "yes", "off", "no", "Yes", "On"] {
@@ -284,6 +297,7 @@ fn c16_grid() -> Vec<Probe> {
         // seeds of wrong length / alphabet
         for s in [&GOOD_SEED[..62], &GOOD_SEED[..63], GOOD_SEED, &format!("{}a", GOOD_SEED), &format!("{}ab", GOOD_SEED), &format!("{}zz", &GOOD_SEED[..62]), &GOOD_SEED.to_uppercase()] {
             out.push(with_setting("seed", s, via_env));
+            out.push(with_stats_on(with_setting("seed", s, via_env)));
         }
         // in-range seeds that are awkward to write in YAML
         for sd in ["1234567890123456789012345678901234567890123456789012345678901234", "0000000000000000000000000000000000000000000000000000000000000001", "123456789012345678901e345678901234567890123456789012345678901234"] {
@@ -317,7 +331,14 @@ fn c16_random() -> impl Strategy<Value = Probe> {
             "num_workers" => prop_oneof![3 => 1i128..=1_000, 1 => -1_000i128..=0].boxed(),
             _ => prop_oneof![3 => -10i128..=300, 2 => 0i128..=70_000, 1 => 65_000i128..=140_000, 1 => -70_000i128..=-1, 1 => (1i128 << 31)..(1i128 << 33)].boxed(),
         };
-        val.prop_map(move |v| with_setting(key, &v.to_string(), via_env))
+        (val, prop::bool::weighted(0.3)).prop_map(move |(v, stats)| {
+            let p = with_setting(key, &v.to_string(), via_env);
+            if stats {
+                with_stats_on(p)
+            } else {
+                p
+            }
+        })
     })
 }
 
@@ -426,7 +447,7 @@ fn check_config(ctx: &mut Ctx, c: &ConfigCase) -> Res {
         // example.cfg as shipped: port, interface, seed, health_check_port; workers default
         SrvCfg { seed_hex: seed_hex.clone(), health: true, ..Default::default() }
     } else {
-        SrvCfg { seed_hex: seed_hex.clone(), workers: c.workers.map(|w| w as u64), health: c.health, batch_size: c.batch_size.map(|b| b as u32), fault: c.fault.map(|f| f as u32), status_interval: c.status_interval.map(|s| s as u32), client_stats: c.stats, via_env: c.via_env, extra: vec![] }
+        SrvCfg { seed_hex: seed_hex.clone(), workers: c.workers.map(|w| w as u64), health: c.health, batch_size: c.batch_size.map(|b| b as u32), fault: c.fault.map(|f| f as u32), status_interval: c.status_interval.map(|s| s as u32), client_stats: c.stats, via_env: c.via_env, extra: vec![], env_extra: vec![] }
     };
     if c.special == 2 {
         // make sure we really mirror the repository's file: same keys as /repo/example.cfg
